@@ -13,7 +13,7 @@ cd $WT
 export CARGO_TARGET_DIR=$WT/target CARGO_NET_OFFLINE=true
 FEAT=$(python3 -c "import json,sys;print((json.load(open('$SRC/meta.json')).get('features') or '').replace(' ',','))" 2>/dev/null)
 RFL=$(python3 -c "import json,sys;print(json.load(open('$SRC/meta.json')).get('rustflags') or '')" 2>/dev/null)
-XENV=$(python3 -c "import json,sys;print(json.load(open('$SRC/meta.json')).get('env') or '')" 2>/dev/null)
+XENV=$(python3 -c "import json,sys;e=json.load(open('$SRC/meta.json')).get('env') or '';print(' '.join('%s=%s'%kv for kv in e.items()) if isinstance(e,dict) else e)" 2>/dev/null)
 COMPILE=$(python3 -c "import json,sys;print(int(bool(json.load(open('$SRC/meta.json')).get('compile_demo'))))" 2>/dev/null)
 [ -n "$XENV" ] && export $XENV
 FARG=""; [ -n "$FEAT" ] && FARG="--features $FEAT"
